@@ -283,8 +283,6 @@ impl InsertionHeuristic {
             match result {
                 InsertionResult::Success(success) => {
                     apply_insertion_success(&mut insertion_ctx, success);
-                    #[cfg(reinterpretcat_vrp_verif)]
-                    crate::verif::on_insertion_applied(&insertion_ctx);
                 }
                 InsertionResult::Failure(failure) => {
                     // NOTE copy data to make borrow checker happy
@@ -401,6 +399,9 @@ pub(crate) fn apply_insertion_success(insertion_ctx: &mut InsertionContext, succ
     insertion_ctx.solution.required.retain(|j| *j != job);
     insertion_ctx.solution.unassigned.remove(&job);
     insertion_ctx.problem.goal.accept_insertion(&mut insertion_ctx.solution, route_index, &job);
+
+    #[cfg(reinterpretcat_vrp_verif)]
+    crate::verif::on_insertion_applied(insertion_ctx);
 }
 
 fn apply_insertion_failure(
